@@ -130,8 +130,7 @@ def lookupFold (table : List Str) (s : Str) : Str :=
   | none => s
 
 def canonicalFlag (s : Str) : Str := lookupFold canonFlagTable s
-/-- ExpectMailboxAttr: ExpectFlag (which canonicalises as a flag) and then canonicalMailboxAttr -/
-def canonicalAttr (s : Str) : Str := lookupFold canonAttrTable (canonicalFlag s)
+def canonicalMailboxAttr (s : Str) : Str := lookupFold canonAttrTable s
 
 /-! ## Server side: printing -/
 
@@ -327,7 +326,8 @@ def upperB (c : Nat) : Nat := if 97 ≤ c ∧ c ≤ 122 then c - 32 else c
 def toUpper (s : Str) : Str := s.map upperB
 
 def decFlag (s : Str) : Option (Str × Str) := (decFlagRaw s).map fun (f, r) => (if f = [92, 42] then f else canonicalFlag f, r)
-def decAttr (s : Str) : Option (Str × Str) := (decFlag s).map fun (f, r) => (canonicalAttr f, r)
+/-- internal.ExpectMailboxAttr: ExpectFlag (which canonicalises as a flag) and then canonicalMailboxAttr -/
+def decAttr (s : Str) : Option (Str × Str) := (decFlag s).map fun (f, r) => (canonicalMailboxAttr f, r)
 
 /-- fetch.go readSectionPart: numbers separated by dots; `dot` = a trailing dot was consumed -/
 def readSectionPart : Nat → List Int → Str → List Int × Bool × Str
